@@ -17,6 +17,7 @@ PROP = {
         {"name": "printf_reentrant", "quick": 400000, "thorough": 5000000, "maxlen": 160},
         {"name": "printf_wide", "quick": 300000, "thorough": 4000000, "maxlen": 64},
     ],
+    "uchar": ["printf_int"],
     "fuzz": [{"name": "printf_int", "secs": 90, "maxlen": 160}],
 }
 
